@@ -38,7 +38,7 @@ def run(chk):
         "hugr-py function builder: inputs() are the function inputs in order, call(f, *wires) passes wires positionally, set_outputs fixes the outputs positionally",
         "parameter lists of up to 4 names (all permutations), up to 2 registers of sizes 1..2 are enumerated",
     ]
-    chk.not_covered += ["the unitary the circuit's HUGR implements (tket's responsibility; the bounded layer compares with pytket's own unitary for twelve circuits)", "angle -> half-turn conversion of parameters beyond unpacking the angle struct (bounded layer only)"]
+    chk.not_covered += ["the unitary the circuit's HUGR implements (tket's responsibility; the bounded layer compares with pytket's own unitary for eighteen circuits, two of them with an implicit qubit permutation)", "angle -> half-turn conversion of parameters beyond unpacking the angle struct (bounded layer only)"]
     chk.assumptions += ["bounded layer: tket.circuit.Tk2Circuit is a stand-in over the installed tket (rotation parameters converted from float half-turns where they enter the circuit function), see C26_oracle.py"]
 
 
@@ -98,10 +98,14 @@ def wiring(chk):
         def t(it, qregs=qregs, cregs=cregs, params=params, use_arrays=use_arrays):
             PPD = it.lookup_global(m, "ParsedPytketDef")
             nq, nb = sum(qregs), sum(cregs)
+            qunits = units(["q", "q2", "qB"], qregs)
+            # an implicit qubit permutation (here: the reversal) is part of the circuit's MEANING and is realised by the
+            # circuit's HUGR (tket); the wrapper must hand qubit i of the inner function's results back as qubit i
             circ = SObj(PC, {"q_registers": [SObj(ClassVal("Reg", builtin=True), {"size": s}) for s in qregs],
                              "c_registers": [SObj(ClassVal("Reg", builtin=True), {"size": s}) for s in cregs],
                              "n_qubits": nq, "n_bits": nb, "free_symbols": Builtin("free_symbols", lambda: set(params)),
-                             "qubits": units(["q", "q2", "qB"], qregs), "bits": units(["c", "c1", "cA"], cregs)})
+                             "implicit_qubit_permutation": Builtin("implicit_qubit_permutation", lambda: dict(zip(qunits, reversed(qunits)))),
+                             "qubits": qunits, "bits": units(["c", "c1", "cA"], cregs)})
             n_in = (len(qregs) if use_arrays else nq) + ((1 if params else 0) if use_arrays else len(params))
             rec = Rec(n_in)
 
